@@ -139,7 +139,7 @@ variable {σ : Type} (ρ : Oracle σ)
 /-- a run that stops on the iteration cap performed at least that many iterations -/
 theorem loop_maxIter_len (a : Args) : ∀ (fuel : Nat) (st : St σ) (iters cnt : Nat),
     (loop ρ a fuel st iters cnt).stop = .maxIter →
-    a.maxSimIterations ≤ iters + (loop ρ a fuel st iters cnt).stream.length := by
+    0 < a.maxSimIterations ∧ a.maxSimIterations ≤ iters + (loop ρ a fuel st iters cnt).stream.length := by
   intro fuel
   induction fuel with
   | zero => intro st iters cnt h; simp [loop] at h
@@ -175,7 +175,7 @@ theorem loop_maxIter_len (a : Args) : ∀ (fuel : Nat) (st : St σ) (iters cnt :
 /-- a run that stops on the length cap recorded at least that many events -/
 theorem loop_maxTrace_len (a : Args) : ∀ (fuel : Nat) (st : St σ) (iters cnt : Nat),
     (loop ρ a fuel st iters cnt).stop = .maxTrace →
-    a.maxTraceLength ≤ cnt + ((loop ρ a fuel st iters cnt).stream.filter a.keep).length := by
+    0 < a.maxTraceLength ∧ a.maxTraceLength ≤ cnt + ((loop ρ a fuel st iters cnt).stream.filter a.keep).length := by
   intro fuel
   induction fuel with
   | zero => intro st iters cnt h; simp [loop] at h
@@ -279,5 +279,217 @@ theorem loop_queueEmpty_final (a : Args) : ∀ (fuel : Nat) (st : St σ) (iters 
           exact ih st' (iters + 1) (bump a r cnt) h
 
 end
+
+/-! ### the same at the level of `sim_advanced` -/
+
+section
+variable {σ : Type} (ρ : Oracle σ)
+
+theorem finish_final {args : Args} {o : LoopOut σ} {stf : St σ} (h : (finish args o).final = some stf) :
+    o.final = some stf := by
+  unfold finish at h
+  cases hs : o.stop <;> simp only [hs] at h <;> first | exact h | cases h
+
+/-- the returned trace of a run that did not fault is the kept part of the iteration stream -/
+theorem simAdvanced_trace_stream (budget : Nat) (mc ms : List Machine) (sq : SimQueue) (a : Args) (orc : σ)
+    (hok : ∀ f, (simAdvanced ρ budget mc ms sq a orc).stop ≠ .fault f) :
+    (simAdvanced ρ budget mc ms sq a orc).trace =
+      ((simAdvanced ρ budget mc ms sq a orc).stream.filter a.keep).map (·.ev) := by
+  unfold simAdvanced at hok ⊢
+  cases hi : initState ρ mc ms sq a orc with
+  | error f => simp [hi] at hok
+  | ok st =>
+    simp only [hi] at hok
+    simp only []
+    have hgood := loop_stream_sorted ρ a (loopFuel a budget) st 0 0
+    have hnf : (loop ρ a (loopFuel a budget) st 0 0).stop.isFault = false := by
+      cases hs : (loop ρ a (loopFuel a budget) st 0 0).stop with
+      | fault f => exact absurd (by rw [finish_stop, hs]) (hok f)
+      | queueEmpty | maxTrace | maxIter | noNormal | loopFuel => rfl
+    rw [finish_trace a _ hgood.2, finish_stream, hnf]
+    simp
+
+theorem simAdvanced_trace_le_stream (budget : Nat) (mc ms : List Machine) (sq : SimQueue) (a : Args) (orc : σ) :
+    (simAdvanced ρ budget mc ms sq a orc).trace.length ≤ (simAdvanced ρ budget mc ms sq a orc).stream.length := by
+  unfold simAdvanced
+  cases hi : initState ρ mc ms sq a orc with
+  | error f => simp
+  | ok st =>
+    simp only []
+    have hgood := loop_stream_sorted ρ a (loopFuel a budget) st 0 0
+    rw [finish_trace a _ hgood.2, finish_stream]
+    split
+    · simp
+    · simp only [List.length_map]; exact List.length_filter_le _ _
+
+theorem simAdvanced_maxIter (budget : Nat) (mc ms : List Machine) (sq : SimQueue) (a : Args) (orc : σ)
+    (h : (simAdvanced ρ budget mc ms sq a orc).stop = .maxIter) :
+    0 < a.maxSimIterations ∧ a.maxSimIterations ≤ (simAdvanced ρ budget mc ms sq a orc).stream.length := by
+  unfold simAdvanced at h ⊢
+  cases hi : initState ρ mc ms sq a orc with
+  | error f => simp [hi] at h
+  | ok st =>
+    simp only [hi, finish_stop] at h
+    simp only [finish_stream]
+    have := loop_maxIter_len ρ a (loopFuel a budget) st 0 0 h
+    omega
+
+theorem simAdvanced_maxTrace (budget : Nat) (mc ms : List Machine) (sq : SimQueue) (a : Args) (orc : σ)
+    (h : (simAdvanced ρ budget mc ms sq a orc).stop = .maxTrace) :
+    0 < a.maxTraceLength ∧ a.maxTraceLength ≤ (simAdvanced ρ budget mc ms sq a orc).trace.length := by
+  have hok : ∀ f, (simAdvanced ρ budget mc ms sq a orc).stop ≠ .fault f := by intro f hf; rw [h] at hf; cases hf
+  rw [simAdvanced_trace_stream ρ budget mc ms sq a orc hok, List.length_map]
+  unfold simAdvanced at h ⊢
+  cases hi : initState ρ mc ms sq a orc with
+  | error f => simp [hi] at h
+  | ok st =>
+    simp only [hi, finish_stop] at h
+    simp only [finish_stream]
+    have := loop_maxTrace_len ρ a (loopFuel a budget) st 0 0 h
+    omega
+
+/-- a length cap that did not stop the run did not change it -/
+theorem simAdvanced_nonbinding (budget : Nat) (mc ms : List Machine) (sq : SimQueue) (a : Args) (orc : σ)
+    (h : (simAdvanced ρ budget mc ms sq a orc).stop ≠ .maxTrace) :
+    simAdvanced ρ budget mc ms sq a orc = simAdvanced ρ budget mc ms sq a.uncapped orc := by
+  unfold simAdvanced at h ⊢
+  have hinit : initState ρ mc ms sq a.uncapped orc = initState ρ mc ms sq a orc := rfl
+  rw [hinit]
+  cases hi : initState ρ mc ms sq a orc with
+  | error f => rfl
+  | ok st =>
+    simp only [hi, finish_stop] at h
+    simp only []
+    have hfu : loopFuel a.uncapped budget = loopFuel a budget := rfl
+    rw [hfu, ← loop_cap_nonbinding ρ a (loopFuel a budget) st 0 0 0 h]
+    rfl
+
+theorem simAdvanced_queueEmpty_final (budget : Nat) (mc ms : List Machine) (sq : SimQueue) (a : Args) (orc : σ)
+    (h : (simAdvanced ρ budget mc ms sq a orc).stop = .queueEmpty) :
+    ∃ stf, (simAdvanced ρ budget mc ms sq a orc).final = some stf ∧ step ρ stf = .ok none := by
+  unfold simAdvanced at h ⊢
+  cases hi : initState ρ mc ms sq a orc with
+  | error f => simp [hi] at h
+  | ok st =>
+    simp only [hi, finish_stop] at h
+    simp only []
+    obtain ⟨stf, hf, hs⟩ := loop_queueEmpty_final ρ a (loopFuel a budget) st 0 0 h
+    refine ⟨stf, ?_, hs⟩
+    rw [finish_ok a _ (by intro f hf'; rw [h] at hf'; cases hf')]
+    exact hf
+
+/-- **Conservation in terms of the final state**: processed normal TunnelSent events per side
+    never exceed the side's share, and when the run ends in a state in which no normal packet
+    waits any more they equal it. -/
+theorem simAdvanced_conserve_final (budget : Nat) (mc ms : List Machine) (trace : List TraceLine) (delay : Nat)
+    (a : Args) (orc : σ) :
+    (∀ c, (simAdvanced ρ budget mc ms (parseTrace trace delay) a orc).stream.countP (sentNormal c) ≤ shareOf trace c) ∧
+    (∀ stf, (simAdvanced ρ budget mc ms (parseTrace trace delay) a orc).final = some stf →
+      (∀ c, stf.sq.pending c = 0) →
+      ∀ c, (simAdvanced ρ budget mc ms (parseTrace trace delay) a orc).stream.countP (sentNormal c) = shareOf trace c) := by
+  unfold simAdvanced
+  have hpt := parseTrace_spec trace delay
+  cases hi : initState ρ mc ms (parseTrace trace delay) a orc with
+  | error f => exact ⟨by simp, fun stf h => by cases h⟩
+  | ok st =>
+    simp only []
+    have hsq := initState_sq ρ hi
+    have hw : st.sq.WF := by rw [hsq]; exact hpt.1
+    have hc := loop_conserve ρ a (loopFuel a budget) st 0 0 hw
+    rw [finish_stream]
+    constructor
+    · intro c
+      have := hc.1 c
+      rw [hsq, hpt.2 c] at this
+      exact this
+    · intro stf hfin hz c
+      have h2 := hc.2 stf (finish_final hfin)
+      have h3 := h2.2 c
+      rw [hz c, hsq, hpt.2 c] at h3
+      omega
+
+end
+
+/-! ### vocabulary of the C15 monitor -/
+
+theorem normalSentCount_map_ev (l : List StepRec) (c : Bool) :
+    C15.normalSentCount (l.map (·.ev)) c = l.countP (sentNormal c) := by
+  induction l with
+  | nil => rfl
+  | cons r rs ih =>
+    simp only [C15.normalSentCount, List.map_cons, List.filter_cons, List.countP_cons] at ih ⊢
+    by_cases h : sentNormal c r = true
+    · have h' : (r.ev.client == c && r.ev.event == TEvent.tunnelSent && !r.ev.containsPadding) = true := by
+        simpa [sentNormal, isTS] using h
+      simp [h, h', ih]
+    · have h1 : sentNormal c r = false := by simpa using h
+      have h' : (r.ev.client == c && r.ev.event == TEvent.tunnelSent && !r.ev.containsPadding) = false := by
+        simpa [sentNormal, isTS] using h1
+      simp [h1, h', ih]
+
+theorem share_eq_shareOf (trace : List TraceLine) (c : Bool) : C15.share trace c = shareOf trace c := by
+  simp [C15.share, shareOf, List.countP_eq_length_filter]
+
+theorem filter_keep_unfiltered (a : Args) (hoc : a.onlyClientEvents = false) (hon : a.onlyNetworkActivity = false)
+    (l : List StepRec) : l.filter a.keep = l := by
+  apply List.filter_eq_self.2
+  intro r _
+  simp [Args.keep, keep, hoc, hon]
+
+/-! ### the effective arguments of a run -/
+
+theorem effArgs_delay (r : RunIn) (d : Nat) : (r.effArgs d).network.delay = d := by
+  unfold RunIn.effArgs; split <;> rfl
+
+/-! ### concrete cases for the non-vacuity examples and witnesses
+
+The returned trace of the model goes through `List.mergeSort` (well-founded recursion, which the
+kernel does not unfold); `modelObs_of_stream` restates the observation through the iteration
+stream, which the kernel evaluates. -/
+
+theorem modelObs_of_stream {σ : Type} (ρ : Oracle σ) (budget : Nat) (c : CaseIn) (r : RunIn) (orc : σ)
+    (hp : (modelOut ρ budget c r orc).stop.isPanic = false) :
+    modelObs ρ budget c r orc =
+      ⟨r, .ok ((((modelOut ρ budget c r orc).stream.filter (r.effArgs c.delay).keep).map (·.ev)).map
+        (SimEvent.shift (obsT0 c)))⟩ := by
+  have h1 : modelObs ρ budget c r orc = ⟨r, (modelOut ρ budget c r orc).res (obsT0 c)⟩ := rfl
+  rw [h1, res_ok hp]
+  have := simAdvanced_trace_stream ρ budget c.mc c.ms (parseTraceRaw c.trace c.delay) (r.effArgs c.delay) orc
+    (isPanic_false_no_fault hp)
+  unfold modelOut
+  rw [this]
+
+/-- 1000.0 as f64 -/
+def demoDist : Dist := { dist := .uniform 0x408F400000000000 0x408F400000000000, start := 0, max := 0 }
+
+/-- a one-state padding machine: every NormalSent (re-)enters state 0, which schedules a padding -/
+def demoPad : Machine :=
+  { allowedPaddingPackets := 1000, maxPaddingFrac := 0, allowedBlockedMicrosec := 0, maxBlockingFrac := 0,
+    states := [
+      { action := some (.sendPadding false false demoDist none), counterA := none, counterB := none,
+        transitions := [none, none, none, some [{ target := 0, prob := 0x3f800000 }], none,
+                        none, none, none, none, none, none, none, none] }] }
+
+/-- the padding machine on the client, a four-line raw trace (one padding line), 10 ms delay -/
+def demoCase : CaseIn :=
+  { mc := [demoPad], ms := [], trace := [⟨0, .s⟩, ⟨1000000, .r⟩, ⟨2000000, .sp⟩, ⟨3000000, .sn⟩], delay := 10000000 }
+
+/-- the same trace without machines -/
+def demoCase0 : CaseIn := { demoCase with mc := [] }
+
+def demoArgs (mtl msi : Nat) (cont oc on : Bool) : Args :=
+  { network := ⟨0, none⟩, maxTraceLength := mtl, maxSimIterations := msi, continueAfterAllNormal := cont,
+    onlyClientEvents := oc, onlyNetworkActivity := on, fpClient := 0, fbClient := 0, fpServer := 0, fbServer := 0 }
+
+/-- a `sim_advanced` run with seed 1 -/
+def demoRun (name : String) (mtl msi : Nat) (cont oc on : Bool) : RunIn :=
+  { name := name, adv := true, pps := none, args := demoArgs mtl msi cont oc on, seed := some 1 }
+
+/-- a `sim` run (thread RNG: no seed) -/
+def demoSim (mtl : Nat) (on : Bool) : RunIn :=
+  { name := "sim", adv := false, pps := none, args := demoArgs mtl 0 false false on, seed := none }
+
+/-- two client packets, the second one exactly `Duration::MAX` after the first; no machines, delay 0 -/
+def farCase : CaseIn := { mc := [], ms := [], trace := [⟨0, .s⟩, ⟨durMax, .s⟩], delay := 0 }
 
 end Mb.Sim
